@@ -229,14 +229,66 @@ def iter_cases(desc):
                             if raising is not None and raising not in cbs:
                                 continue
                             yield {"segidx": list(segidx), "glue": glue, "tls": desc["tls"], "cbs": list(cbs), "raising": raising, "reconnect": rc}
+        for err in ("epipe", "econnreset"):
+            for split in (False, True):
+                yield {"sendfail": True, "err": err, "split": split, "tls": desc["tls"]}
         for segidx in ((i,) for i in range(len(SEGS))):
             for loss in ("midframe", "midmessage", "midheader"):
                 yield {"segidx": list(segidx), "glue": False, "tls": desc["tls"], "cbs": list(CB7), "raising": None, "reconnect": "with-on_reconnect", "loss": loss}
 
 
+class _FaultFrom:
+    """send_faults table: every send() call from number `first` on fails with a fresh instance of the error."""
+
+    def __init__(self, first, mk):
+        self.first, self.mk = first, mk
+
+    def __contains__(self, n):
+        return n >= self.first
+
+    def __getitem__(self, n):
+        return self.mk()
+
+
+def send_fail_case(ch, c):
+    """The application answers every message from inside on_message with send(); the peer has stopped reading, so every send() after the
+    handshake fails (EPIPE / ECONNRESET). That is an exception raised by a user callback like any other: it goes to on_error and the
+    messages already received keep being delivered."""
+    import errno as _errno
+    err = {"epipe": lambda: BrokenPipeError(_errno.EPIPE, "Broken pipe"), "econnreset": lambda: ConnectionResetError(_errno.ECONNRESET, "Connection reset by peer")}[c["err"]]
+    burst = [R.encode(R.TEXT, b"one") + R.encode(R.BINARY, b"\x02") + R.encode(R.TEXT, b"three")]
+    if c["split"]:
+        burst = [R.encode(R.TEXT, b"one") + R.encode(R.BINARY, b"\x02")[:2], R.encode(R.BINARY, b"\x02")[2:] + R.encode(R.TEXT, b"three")]
+    script = [(1.0 + i, "data", d) for i, d in enumerate(burst)] + [(6.0, "data", R.encode(R.CLOSE, b"\x03\xe8"))]
+
+    def reply(app, run):
+        sk = run.net.socks[-1]
+        if not isinstance(sk.send_faults, _FaultFrom):
+            sk.send_faults = _FaultFrom(sk.n_send_calls + 1, err)
+        app.send("reply")
+
+    spec = {"url": "wss://h.example/app" if c["tls"] else "ws://h.example/app", "callbacks": list(CB7), "attempts": [lambda: tnet.ServerPeer(script=script)],
+            "actions": {"on_message": reply}, "run_kwargs": {}, "horizon": 200.0}
+    run = appsim.AppRun(ch, spec)
+    res = run.execute()
+    label = "burst of three messages, every send() from on_message fails with %s (%s%s)" % (c["err"].upper(), "TLS" if c["tls"] else "plain", ", frame split across segments" if c["split"] else "")
+    sig = {"tls": c["tls"], "kind": "callback-send-fails"}
+    if res["abort"]:
+        raise Violation(dict(sig, how="run-aborted"), "%s: %s" % (label, res["abort"]))
+    msgs = [e[2][0] for e in run.callback_trace() if e[1] == "on_message"]
+    if msgs != ["one", b"\x02", "three"]:
+        raise Violation(dict(sig, how="messages-lost"), "%s: on_message received %r; all three messages had arrived" % (label, msgs), detail={"trace": repr(run.trace)[:1500]})
+    errs = [e for e in run.callback_trace() if e[1] == "on_error"]
+    if len(errs) < 3:
+        raise Violation(dict(sig, how="errors-not-reported"), "%s: %d of the 3 callback exceptions reached on_error" % (label, len(errs)))
+    return len(msgs), run.sched.steps
+
+
 def run_case(c, choices=()):
     from ..explore import Chooser
     ch = Chooser(list(choices))
+    if c.get("sendfail"):
+        return send_fail_case(ch, c)
     return scenario_case(ch, tuple(c["segidx"]), c["glue"], c["tls"], tuple(c["cbs"]), c["raising"], c["reconnect"], c.get("loss", "boundary"))
 
 
